@@ -29,7 +29,10 @@ The message body is opaque: the model is parameterised by a `BodyCodec` (what `m
 -/
 namespace Txdbus.Msg
 
-/-- `marshal.marshal(sig, body, oobFDs=fds)` and `marshal.unmarshal(sig, rawBody, lendian=…, oobFDs=fds)[1]`
+/-- (Since bf83351 `marshal.marshal` raises MarshallingError for a body with more or fewer values than the signature
+has complete types: for the message model that is one more way in which `marshal` returns `.error` - `marshalBody`
+passes every error on, the message is not constructed, no serial is consumed.)
+`marshal.marshal(sig, body, oobFDs=fds)` and `marshal.unmarshal(sig, rawBody, lendian=…, oobFDs=fds)[1]`
 for body values of type `β`.  `marshal` returns the bytes and the descriptor list afterwards (it appends
 to the list it is given; `none` = `oobFDs=None`). -/
 structure BodyCodec (β : Type) where
